@@ -77,6 +77,8 @@ PLAN = {
     "C09": [item("h_model", "c09_impossible", 6_400_000, 48_000_000, max_len=(2048, 16384))],
     "C20": [
         item("h_model", "c20_unsafe", 1_600_000, 64_000_000, max_len=(1024, 4096)),
+        # safe traits implemented by the user (IterableEntropyModel with an arbitrary table, Distribution + Inverse with an arbitrary CDF)
+        item("h_model", "c20_user_impls", 800_000, 32_000_000, max_len=(512, 1024), fuzz_runs=400_000),
         item("h_model", "categorical", 400_000, 16_000_000, param=19, max_len=(2048, 16384), ubonly=True, fuzz_runs=800_000),
         # valid inputs: every constructor, conversion, view and accessor of C03's explorer under the UB-only oracle
         item("h_model", "categorical", 200_000, 8_000_000, param=3, max_len=(2048, 16384), ubonly=True, fuzz_runs=400_000),
@@ -290,3 +292,22 @@ PYPLAN = {
                 "that does not return is a violation; non-trivial = an accepted model with >= 3 symbols that went through all of these",
     },
 }
+
+
+# The coder classes of the Python front end (pycheck/coders_py.py): one entry per property they help to decide.
+_PY_CODER_RULES = {
+    "C01": "Python AnsCoder histories (scalar / i.i.d. array / model-family call forms of encode_reverse and decode, reload through get_compressed, clone, pos / seek, refused symbols) against a stack model and a pure-Python reference rANS fed with the model's exact table; non-trivial = a push popped after a reload, or a history of >= 4 operations",
+    "C02": "Python RangeEncoder histories (three call forms, inspections, clear) decoded by RangeDecoder / get_decoder in generated call forms: FIFO equality, empty message has no words, maybe_exhausted at the end; non-trivial = message of >= 3 symbols",
+    "C04": "Python AnsCoder(words, seal=True): decode with generated call forms, encode back in reverse (scalar / i.i.d. / family form), get_compressed(unseal=True) equals the words; every decoded symbol equals the table lookup of the reference's quantile; non-trivial = >= 2 symbols decoded and restored",
+    "C06": "get_compressed() of the Python AnsCoder after every step and of the Python RangeEncoder at generated prefixes and at the end equals the pure-Python reference coder (rANS / carry-propagating range coder with the documented seal) fed with the model's exact table; non-trivial = >= 3 symbols",
+    "C07": "Python pos() / seek(): AnsCoder snapshots sought back to (state and bulk position equal the reference's), RangeEncoder.pos() snapshots at symbol boundaries sought to by the RangeDecoder in arbitrary order, positions beyond the data refused and the coder unchanged; non-trivial = >= 3 symbols",
+    "C08": "Python inspections (get_compressed, num_words, num_bits, num_valid_bits, is_empty, pos, get_decoder, clone) between operations: the coder's export stays equal to the reference's; non-trivial = >= 3 symbols",
+    "C09": "Python: symbols outside the model's support (neighbours, far away, i32 extremes; scalar, i.i.d. and family form) on AnsCoder, RangeEncoder, ChainCoder and the symbol coders must raise and leave the coder's export unchanged; non-trivial = history with >= 3 symbols",
+    "C10": "Python: AnsCoder (seal=True) / RangeDecoder / ChainCoder over arbitrary words: every call returns or raises an ordinary exception, decoded symbols lie in the support and equal the table lookup of the reference decoder's quantile; non-trivial = >= 2 symbols decoded",
+    "C13": "Python ChainCoder(words, seal) decode in generated call forms, export / re-import in the three documented ways (same coder, get_remainders concatenated, suffix only), re-encode in reverse (three call forms), get_data(unseal=seal) restores the words; non-trivial = >= 2 symbols",
+    "C15": "Python Huffman trees over integer-valued weights: codewords (read off a fresh QueueEncoder) prefix-free, Kraft sum 1, cost equal to the optimum; non-trivial = >= 3 symbols and a message of >= 3",
+    "C16": "Python QueueEncoder / QueueDecoder / StackCoder with Huffman codebooks: bit rate = sum of codeword lengths, queue content = codewords in order (little-endian packing), FIFO / LIFO round trips directly and through export / re-import; non-trivial = >= 3 symbols and a message of >= 3",
+    "C18": "Python num_words / num_bits / num_valid_bits / is_empty of AnsCoder and RangeEncoder after generated histories against the reference's export; non-trivial = >= 3 symbols",
+}
+for _pid, _rule in _PY_CODER_RULES.items():
+    PYPLAN[_pid] = {"script": "coders_py.py", "args": ["--prop", _pid], "quick": 12_000, "thorough": 400_000, "rule": "Python front end: " + _rule}
